@@ -291,7 +291,9 @@ def race_probe(work, tier, seed):
 
 PROPS["C16"] = dict(
     modules=["Sth.Props.C16"],
-    theorems=["Sth.Race.C16_lockset_sound", "Sth.Race.C16_discipline_race_free"],
+    theorems=["Sth.Race.C16_lockset_sound", "Sth.Race.C16_lockset_sound_modes", "Sth.Race.C16_discipline_race_free", "Sth.Race.C16_discipline_phased",
+              "Sth.Race.C16_discipline_locksets", "Sth.Race.C16_pairwise_race_free", "Sth.Race.C16_hb_strict_order", "Sth.Race.C16_checkers",
+              "Sth.Race.C16_unguarded_race_witness", "Sth.Race.C16_write_under_rlock_witness"],
     facts=dict(modules=["Sth.Obligations.C16"], theorems=["Sth.Obligations.C16_discipline", "Sth.Obligations.C16_table_nontrivial"]),
     runs=[],
     probes=[race_probe],
